@@ -110,8 +110,42 @@ def sp_trees(tier, part, nparts):
     return out[part::nparts]
 
 
+_SUBF = {}
+
+
+def sub_real(expr, xv, yv):
+    """are all sub-expressions of the source real and finite at the point (the real domain of the source)"""
+    k = sympy.srepr(expr)
+    if k not in _SUBF:
+        subs = [e for e in sympy.preorder_traversal(expr) if not e.is_Atom]
+        try:
+            _SUBF[k] = sympy.lambdify((X, Y), subs, "mpmath") if subs else None
+        except Exception:
+            _SUBF[k] = None
+        if len(_SUBF) > 4000:
+            _SUBF.clear()
+    f = _SUBF.get(k)
+    if f is None:
+        return True
+    try:
+        with mpmath.workdps(30):
+            for v in f(mpmath.mpf(xv), mpmath.mpf(yv)):
+                if isinstance(v, (bool, sympy.logic.boolalg.BooleanAtom)):
+                    continue
+                v = mpmath.mpmathify(v)
+                if isinstance(v, mpmath.mpc) and abs(v.imag) > 0:
+                    return False
+                if not mpmath.isfinite(v):
+                    return False
+    except Exception:
+        return False
+    return True
+
+
 def mp_value(expr, xv, yv):
     """reference value of a SymPy expression; None if outside the real domain"""
+    if not sub_real(expr, xv, yv):
+        return None
     try:
         f = sympy.lambdify((X, Y), expr, "mpmath")
         with mpmath.workdps(30):
@@ -391,13 +425,36 @@ def explore_ca(case):
             res.count("refused")
             res.add_set("refused_ops", tag.split("(")[0])
             continue
+        nodes = []
+
+        def walk(n):
+            nodes.append(n)
+            for i in range(n.n_dep()):
+                walk(n.dep(i))
+        walk(e)
         f = ca.Function("f", [A, Bs], [e])
+        fall = ca.Function("fall", [A, Bs], [ca.vertcat(*nodes)])
         cls = tag.split("(")[0]
         pts = list(itertools.product(PTS, PTS)) if (depth < 2 or tier == "thorough") else list(itertools.product(PTS[::2], PTS[::2]))
         for av, bv in pts:
             want = float(np.array(f(av, bv)).reshape(-1)[0])
-            if not math.isfinite(want):
+            inter = np.array(fall(av, bv), dtype=float).reshape(-1)
+            if np.any((inter == 0) & np.signbit(inter)):
+                res.count("negative_zero_intermediate")  # IEEE signed zero has no SymPy counterpart (matters only on branch cuts)
+                continue
+            if not math.isfinite(want) or not np.all(np.isfinite(inter)):
+                # a non-finite intermediate value: the point is outside the real domain of the source
                 res.count("outside_domain")
+                continue
+            # a point within rounding distance of a discontinuity of the source (exact tie of a rounding function, branch cut,
+            # signed zero) is not judged: there the value depends on the last bit of intermediate results
+            near = False
+            for da, db in ((1e-7, 0), (-1e-7, 0), (0, 1e-7), (0, -1e-7)):
+                w2 = float(np.array(f(av * (1 + da), bv * (1 + db))).reshape(-1)[0])
+                if not math.isfinite(w2) or abs(w2 - want) > 1e-4 * max(1.0, abs(want)):
+                    near = True
+            if near:
+                res.count("near_discontinuity")
                 continue
             got = sp_num(e_sp, syms, av, bv)
             res.count("traces_validated_against_impl")
